@@ -239,7 +239,7 @@ def feature_names_for(deriv_type: str, ul_type: str, listed: bool) -> List[str]:
 @st.composite
 def scenario(draw, ul_types=None, deriv_types=None, models=("linear", "mlp", "naked", "bs", "ww", "recurrent", "identity"),
              dtype="any", min_steps=2, max_steps=8, max_paths=8, cost=True, allow_prev_hedge=True,
-             hedge_kinds=("default", "ul", "ul+listed", "ul+listed+listed", "varswap"), extra_features=True):
+             hedge_kinds=("default", "ul", "ul+listed", "ul+listed+listed", "varswap"), extra_features=True, long_horizon=0):
     ul = draw(primary_spec(types=ul_types, dtype=dtype, cost=cost, dts=[1 / 250, 1 / 250, 1 / 52, 0.01]))
     model = draw(st.sampled_from(list(models)))
     if model in ("bs", "ww"):
@@ -252,7 +252,7 @@ def scenario(draw, ul_types=None, deriv_types=None, models=("linear", "mlp", "na
             deriv["call"] = True  # puts are documented as unsupported by these BS modules
         hedge_kind = draw(st.sampled_from(["default", "ul"]))
         inputs: List[Any] = ["__model__"]
-    elif model == "identity":
+    elif model in ("identity", "inplace"):
         # a user model whose output aliases its input: one feature that is a view of a simulated buffer, one hedge
         deriv = draw(derivative_spec(types=deriv_types, min_steps=min_steps, max_steps=max_steps))
         deriv["listed"] = False
@@ -274,6 +274,14 @@ def scenario(draw, ul_types=None, deriv_types=None, models=("linear", "mlp", "na
         if model == "recurrent" or (allow_prev_hedge and draw(st.integers(0, 3)) == 0):
             inputs.append("prev_hedge")
     n_hedges = {"default": 1, "ul": 1, "ul+listed": 2, "ul+listed+listed": 3, "varswap": 1}[hedge_kind]
+    if long_horizon and draw(st.integers(0, long_horizon - 1)) == 0:
+        # a long contract (more than 256 time steps: a year of daily steps), one or two paths
+        deriv["steps"] = draw(st.sampled_from([257, 258, 300]))
+        if model in ("bs", "ww") and deriv["type"] != "EuropeanOption":
+            deriv["type"] = "EuropeanOption"  # (autograd Greeks of path-dependent contracts cost seconds per evaluation over 300 steps)
+        if "start_steps" in deriv:
+            deriv["start_steps"] = min(deriv["start_steps"], deriv["steps"])
+        max_paths = 2
     return {
         "ul": ul,
         "deriv": deriv,
@@ -407,6 +415,9 @@ def build_scenario(spec: Dict[str, Any]):
             model = MultiLayerPerceptron(n_feat, H, n_layers=1, n_units=3, activation=torch.nn.Tanh(), out_activation=torch.nn.Tanh())
         elif m == "identity":
             model = torch.nn.Identity()
+        elif m == "inplace":
+            # a user network whose first layer works in place on what it is given (as nn.ReLU(inplace=True) would)
+            model = torch.nn.Sequential(torch.nn.Hardtanh(0.97, 1.03, inplace=True), torch.nn.Linear(n_feat, H))
         elif m == "naked":
             model = Naked(H)
         elif m == "recurrent":
